@@ -927,8 +927,7 @@ def phasesAsModelled : List Phase :=
 /-- the extracted code has the shape the theorems are about -/
 structure AsModelled (code : Code) : Prop where
   phases : code.phases = phasesAsModelled
-  crit : code.crit = critAsModelled
-  post : code.post = postAsModelled
+  div : DivShape code
   cellKey : ∀ c, code.cellKey c = c.localId
   nodeKey : ∀ n, code.nodeKey n = n.nid
 
@@ -940,7 +939,7 @@ theorem dividePhase_inv {code : Code} (hm : AsModelled code) {e : IterEv} {s : S
   simp only [phaseOKb] at hok
   by_cases hp : s.iter % code.period = 0
   · simp only [hp, if_true, Bool.and_eq_true] at hok ⊢
-    exact divisionRound_inv hm.crit hm.post (remesh_inv h hok.1) hok.2
+    exact divisionRound_inv hm.div (remesh_inv h hok.1) hok.2
   · simp only [hp, if_false]
     exact h
 
@@ -1133,56 +1132,88 @@ theorem renumber_fresh (s : State) : Fresh s (renumber s) := by
   unfold keys renumber renumberCells
   exact keys_mapIdx (fun _ _ => rfl)
 
-/-- (id, object) pairs during a division round: old ones, or ids taken from the counter -/
+/-- (id, object) pairs during a division round (list and collected daughters): old ones, or ids taken from the counter -/
 def DFresh (cells : List Cell) (maxId : Nat) (st : DState) : Prop :=
-  maxId ≤ st.maxId ∧ ∀ p ∈ st.cells.map key, p ∈ cells.map key ∨ (maxId ≤ p.1 ∧ p.1 < st.maxId)
+  maxId ≤ st.maxId ∧ ∀ p ∈ (st.cells ++ st.pending).map key, p ∈ cells.map key ∨ (maxId ≤ p.1 ∧ p.1 < st.maxId)
 
-theorem divOne_fresh {cells : List Cell} {maxId : Nat} {st : DState} (h : DFresh cells maxId st) (i : Nat) (d : Daughters) :
-    DFresh cells maxId (divOne critAsModelled st i d) := by
+theorem keys_clear (cells : List Cell) (i : Nat) : (cells.modify i clearCell).map key = cells.map key := by
+  rw [modify_eq_mapIdx]; exact keys_mapIdx (fun j c => by split <;> rfl)
+
+theorem divOne_fresh {crit : List DivStmt} (hcr : crit = critA ∨ crit = critB) {cells : List Cell} {maxId : Nat} {st : DState}
+    (h : DFresh cells maxId st) (i : Nat) (d : Daughters) : DFresh cells maxId (divOne crit st i d) := by
   cases hm : st.cells[i]? with
   | none => simpa [divOne, hm] using h
   | some mother =>
-    rw [divOne_eq hm]
-    refine ⟨by have := h.1; show maxId ≤ st.maxId + 2; omega, ?_⟩
-    intro p hp
-    simp only [List.map_append, List.mem_append, List.map_cons, List.map_nil, List.mem_cons, List.not_mem_nil, or_false] at hp
-    rcases hp with hp | rfl | rfl
-    · have : (st.cells.modify i clearCell).map key = st.cells.map key := by
-        rw [modify_eq_mapIdx]; exact keys_mapIdx (fun j c => by split <;> rfl)
-      rw [this] at hp
+    have hold : ∀ p ∈ (st.cells.modify i clearCell ++ st.pending).map key,
+        p ∈ cells.map key ∨ (maxId ≤ p.1 ∧ p.1 < st.maxId + 2) := by
+      intro p hp
+      rw [List.map_append, keys_clear, ← List.map_append] at hp
       rcases h.2 p hp with h' | ⟨h1, h2⟩
       · exact Or.inl h'
-      · exact Or.inr ⟨h1, by show p.1 < st.maxId + 2; omega⟩
-    · exact Or.inr ⟨h.1, by show st.maxId < st.maxId + 2; omega⟩
-    · exact Or.inr ⟨by have := h.1; show maxId ≤ st.maxId + 1; omega, by show st.maxId + 1 < st.maxId + 2; omega⟩
+      · exact Or.inr ⟨h1, by omega⟩
+    have hnew : ∀ p ∈ [daughter1 st mother d, daughter2 st mother d].map key, maxId ≤ p.1 ∧ p.1 < st.maxId + 2 := by
+      intro p hp
+      have := h.1
+      simp only [List.map_cons, List.map_nil, List.mem_cons, List.not_mem_nil, or_false] at hp
+      rcases hp with rfl | rfl
+      · exact ⟨by show maxId ≤ st.maxId; omega, by show st.maxId < st.maxId + 2; omega⟩
+      · exact ⟨by show maxId ≤ st.maxId + 1; omega, by show st.maxId + 1 < st.maxId + 2; omega⟩
+    rcases hcr with rfl | rfl
+    · rw [divOneA_eq hm]
+      refine ⟨by have := h.1; show maxId ≤ st.maxId + 2; omega, ?_⟩
+      intro p hp
+      simp only [List.map_append, List.mem_append] at hp
+      rcases hp with (hp | hp) | hp
+      · exact hold p (by rw [List.map_append, List.mem_append]; exact Or.inl hp)
+      · exact Or.inr (hnew p hp)
+      · exact hold p (by rw [List.map_append, List.mem_append]; exact Or.inr hp)
+    · rw [divOneB_eq hm]
+      refine ⟨by have := h.1; show maxId ≤ st.maxId + 2; omega, ?_⟩
+      intro p hp
+      simp only [List.map_append, List.mem_append] at hp
+      rcases hp with hp | hp | hp
+      · exact hold p (by rw [List.map_append, List.mem_append]; exact Or.inl hp)
+      · exact hold p (by rw [List.map_append, List.mem_append]; exact Or.inr hp)
+      · exact Or.inr (hnew p hp)
 
-theorem divFold_fresh {cells : List Cell} {maxId : Nat} (ev : List (Nat × Daughters)) {st : DState} (h : DFresh cells maxId st) :
-    DFresh cells maxId (divFold critAsModelled st ev) := by
+theorem divFold_fresh {crit : List DivStmt} (hcr : crit = critA ∨ crit = critB) {cells : List Cell} {maxId : Nat}
+    (ev : List (Nat × Daughters)) {st : DState} (h : DFresh cells maxId st) : DFresh cells maxId (divFold crit st ev) := by
   induction ev generalizing st with
   | nil => exact h
-  | cons p rest ih => obtain ⟨i, d⟩ := p; exact ih (divOne_fresh h i d)
+  | cons p rest ih => obtain ⟨i, d⟩ := p; exact ih (divOne_fresh hcr h i d)
 
-theorem divisionRound_fresh {code : Code} (hc : code.crit = critAsModelled) (hp : code.post = postAsModelled)
-    (ev : DivEv) (s : State) : Fresh s (divisionRound code ev s) := by
-  have h0 : DFresh s.cells s.maxId (dstate0 s) := ⟨Nat.le_refl _, fun p hp => Or.inl hp⟩
-  have h1 := divFold_fresh ev h0
+theorem divisionRound_fresh {code : Code} (hs : DivShape code) (ev : DivEv) (s : State) :
+    Fresh s (divisionRound code ev s) := by
+  have hcr : code.crit = critA ∨ code.crit = critB := by rcases hs with h | h; exact Or.inl h.1; exact Or.inr h.1
+  have h0 : DFresh s.cells s.maxId (dstate0 s) := ⟨Nat.le_refl _, fun p hp => Or.inl (by simpa [dstate0] using hp)⟩
+  have h1 := divFold_fresh hcr ev h0
+  have hren : ∀ (l : List Cell), (renumberCells l).map key = l.map key := by
+    intro l; unfold renumberCells; exact keys_mapIdx (fun _ _ => rfl)
   unfold divisionRound
-  rw [hc, hp]
-  dsimp only
-  split
-  · simp only [postAsModelled, List.foldl, runDivPost]
-    refine ⟨h1.1, fun p hp => ?_⟩
-    apply h1.2
-    have : (renumberCells (removeIdx (divFold critAsModelled (dstate0 s) ev).cells
-        (sortAsc (divFold critAsModelled (dstate0 s) ev).toDelete))).map key
-        = (removeIdx (divFold critAsModelled (dstate0 s) ev).cells
-        (sortAsc (divFold critAsModelled (dstate0 s) ev).toDelete)).map key := by
-      unfold renumberCells; exact keys_mapIdx (fun _ _ => rfl)
-    unfold keys at hp
-    simp only at hp
-    rw [this] at hp
-    exact ((removeIdx_sublist _ _).map key).subset hp
-  · exact ⟨h1.1, fun p hp => h1.2 p hp⟩
+  rcases hs with ⟨hc, h2, h3⟩ | ⟨hc, h2, h3⟩
+  · rw [h2, h3]
+    have hp0 : (divFold code.crit (dstate0 s) ev).pending = [] := by rw [hc, divFoldA_pending]; rfl
+    unfold DFresh at h1
+    rw [hp0, List.append_nil] at h1
+    simp only [List.foldl]
+    by_cases hpos : (divFold code.crit (dstate0 s) ev).toDelete.length > 0
+    · simp only [hpos, if_true, postAsModelled, List.foldl, runDivPost]
+      refine ⟨h1.1, fun p hp => h1.2 p ?_⟩
+      unfold keys at hp
+      simp only [hren] at hp
+      exact ((removeIdx_sublist _ _).map key).subset hp
+    · simp only [hpos, if_false]
+      exact ⟨h1.1, fun p hp => h1.2 p hp⟩
+  · rw [h2, h3]
+    simp only [List.foldl, runDivPost]
+    by_cases hpos : (divFold code.crit (dstate0 s) ev).toDelete.length > 0
+    · simp only [hpos, if_true, postAsModelled, List.foldl, runDivPost]
+      refine ⟨h1.1, fun p hp => h1.2 p ?_⟩
+      unfold keys at hp
+      simp only [hren] at hp
+      exact ((removeIdx_sublist _ _).map key).subset hp
+    · simp only [hpos, if_false]
+      exact ⟨h1.1, fun p hp => h1.2 p hp⟩
 
 theorem iteration_fresh {code : Code} (hm : AsModelled code) (e : IterEv) (s : State) : Fresh s (iteration code e s) := by
   have h : Fresh s (afterRemoval code e s) := by
@@ -1196,7 +1227,7 @@ theorem iteration_fresh {code : Code} (hm : AsModelled code) (e : IterEv) (s : S
     refine Fresh.trans (remesh_fresh e.save s) ?_
     simp only [runPhase]
     split
-    · exact Fresh.trans (remesh_fresh _ _) (divisionRound_fresh hm.crit hm.post _ _)
+    · exact Fresh.trans (remesh_fresh _ _) (divisionRound_fresh hm.div _ _)
     · exact Fresh.refl _
   unfold iteration
   rw [runPhases_eq hm]
